@@ -15,9 +15,10 @@ The full-strength statement (all programs mypy accepts) is **false** of the curr
 fails inside this fragment are kept visible as theorems with concrete witnesses:
 * `not_soundness_F19`, `not_soundness_F18` — without `WF` (declared-but-unassigned attribute; covariant
   redeclaration of a mutable attribute) `tc` accepts and evaluation ends in AttributeError / TypeError;
-* `hole_union_setattr`, `hole_loop_cap` — the two rules where `tc` deliberately answers `hole k` instead of
-  mypy's "accept" (assignment to an attribute through a union receiver; the 4-pass cap of `accept_loop`):
-  well-formed witnesses on which evaluation ends in TypeError.
+* `hole_union_setattr`, `hole_loop_cap`, `hole_union_isinstance_mi` — the three rules where `tc` deliberately
+  answers `hole k` instead of mypy's "accept" (assignment to an attribute through a union receiver; the 4-pass
+  cap of `accept_loop`; isinstance on a union dropping an item that shares a subclass with the tested class):
+  well-formed witnesses on which evaluation ends in TypeError / AttributeError.
 -/
 namespace Lang
 
@@ -106,9 +107,9 @@ def f0(p0: Optional[K0], p1: int) -> int:      # sum over the chain, at most p1 
 def exProg : Prog :=
   let m (k : Int) : FuncDef := { params := [], locals := [], ret := [.int], body := .ret (.intLit k) }
   { classes := [
-      { base := none, mro := [0], attrs := [(0, [.cls 0, .none])],
+      { bases := [], mro := [0], attrs := [(0, [.cls 0, .none])],
         init := { params := [[.cls 0, .none]], assigns := [(0, .var 0)] }, methods := [(0, m 1)] },
-      { base := some 0, mro := [1, 0], attrs := [],
+      { bases := [0], mro := [1, 0], attrs := [],
         init := { params := [[.cls 0, .none]], assigns := [(0, .var 0)] }, methods := [(0, m 2)] }],
     funcs := [
       { params := [[.cls 0, .none], [.int]], locals := [[.int], [.int]], ret := [.int],
@@ -161,7 +162,7 @@ example : (evalCall 80 exProg (exProg.funcs[1]!) [.ref 1, .int 5]
 
 /-- F19: `class K0: a0: int` with an `__init__` that never assigns it; `def f0() -> int: return K0().a0` -/
 def progF19 : Prog :=
-  { classes := [{ base := none, mro := [0], attrs := [(0, [.int])], init := { params := [], assigns := [] }, methods := [] }],
+  { classes := [{ bases := [], mro := [0], attrs := [(0, [.int])], init := { params := [], assigns := [] }, methods := [] }],
     funcs := [{ params := [], locals := [], ret := [.int], body := .ret (.attr (.new 0 []) 0) }] }
 
 theorem not_soundness_F19 :
@@ -172,8 +173,8 @@ theorem not_soundness_F19 :
 /-- F18: `K0.a0: object`, `K1(K0).a0: int`; `f0(p0: K0): p0.a0 = "s"`; `f1(): v0 = K1(1); f0(v0); return v0.a0 + 1` -/
 def progF18 : Prog :=
   { classes := [
-      { base := none, mro := [0], attrs := [(0, [.object])], init := { params := [[.object]], assigns := [(0, .var 0)] }, methods := [] },
-      { base := some 0, mro := [1, 0], attrs := [(0, [.int])], init := { params := [[.int]], assigns := [(0, .var 0)] }, methods := [] }],
+      { bases := [], mro := [0], attrs := [(0, [.object])], init := { params := [[.object]], assigns := [(0, .var 0)] }, methods := [] },
+      { bases := [0], mro := [1, 0], attrs := [(0, [.int])], init := { params := [[.int]], assigns := [(0, .var 0)] }, methods := [] }],
     funcs := [
       { params := [[.cls 0]], locals := [], ret := [.none], body := .setAttr (.var 0) 0 (.strLit [115]) },
       { params := [], locals := [[.cls 1]], ret := [.int],
@@ -189,8 +190,8 @@ theorem not_soundness_F18 :
     `f1(): v0 = K0(1); f0(v0); return v0.a0 + 1` — mypy checks `"s"` against `int | str` -/
 def progUnionSet : Prog :=
   { classes := [
-      { base := none, mro := [0], attrs := [(0, [.int])], init := { params := [[.int]], assigns := [(0, .var 0)] }, methods := [] },
-      { base := none, mro := [1], attrs := [(0, [.str])], init := { params := [[.str]], assigns := [(0, .var 0)] }, methods := [] }],
+      { bases := [], mro := [0], attrs := [(0, [.int])], init := { params := [[.int]], assigns := [(0, .var 0)] }, methods := [] },
+      { bases := [], mro := [1], attrs := [(0, [.str])], init := { params := [[.str]], assigns := [(0, .var 0)] }, methods := [] }],
     funcs := [
       { params := [[.cls 0, .cls 1]], locals := [], ret := [.none], body := .setAttr (.var 0) 0 (.strLit [115]) },
       { params := [], locals := [[.cls 0]], ret := [.int],
@@ -221,10 +222,10 @@ def f0(p0: int) -> None:
 ```
 -/
 def progLoopCap : Prog :=
-  let cls (b : Option Nat) (mro : List Nat) : ClassDef :=
-    { base := b, mro := mro, attrs := [], init := { params := [], assigns := [] }, methods := [] }
-  { classes := [cls none [0], cls (some 0) [1, 0], cls (some 1) [2, 1, 0], cls (some 2) [3, 2, 1, 0],
-                cls (some 3) [4, 3, 2, 1, 0], cls (some 4) [5, 4, 3, 2, 1, 0]],
+  let cls (b : List Nat) (mro : List Nat) : ClassDef :=
+    { bases := b, mro := mro, attrs := [], init := { params := [], assigns := [] }, methods := [] }
+  { classes := [cls [] [0], cls [0] [1, 0], cls [1] [2, 1, 0], cls [2] [3, 2, 1, 0],
+                cls [3] [4, 3, 2, 1, 0], cls [4] [5, 4, 3, 2, 1, 0]],
     funcs := [
       { params := [[.int]], locals := [[.cls 0], [.int]], ret := [.none],
         body :=
@@ -242,5 +243,38 @@ theorem hole_loop_cap :
     WF progLoopCap ∧ tc progLoopCap = .error (.hole 2) ∧
     (evalCall 100 progLoopCap (progLoopCap.funcs[0]!) [.int 7] { heap := [], log := [] }).1 = .error .typeError := by
   decide
+
+/-- isinstance on a union with multiple inheritance in the program: `class K0`, `class K1`, `class K2(K1)` with
+    `m0`, `class K3(K0, K1)`; `def f0(p0: Union[K0, K2]) -> int: if isinstance(p0, K1): return p0.m0() …` —
+    mypy narrows `p0` to `K2` (the item `K0` "does not overlap" `K1`), `f0(K3())` raises AttributeError -/
+def progMI : Prog :=
+  let cls (b : List Nat) (mro : List Nat) (ms : List (Nat × FuncDef)) : ClassDef :=
+    { bases := b, mro := mro, attrs := [], init := { params := [], assigns := [] }, methods := ms }
+  { classes := [cls [] [0] [], cls [] [1] [],
+                cls [1] [2, 1] [(0, { params := [], locals := [], ret := [.int], body := .ret (.intLit 1) })],
+                cls [0, 1] [3, 0, 1] []],
+    funcs := [
+      { params := [[.cls 0, .cls 2]], locals := [], ret := [.int],
+        body := .seq (.ite (.isinst 0 1) (.ret (.callM (.var 0) 0 [])) .pass) (.ret (.intLit 0)) },
+      { params := [], locals := [], ret := [.int], body := .ret (.callF 0 [.new 3 []]) }] }
+
+theorem hole_union_isinstance_mi :
+    WF progMI ∧ tc progMI = .error (.hole 3) ∧
+    (evalCall 20 progMI (progMI.funcs[1]!) [] { heap := [], log := [] }).1 = .error .attrError := by
+  decide
+
+/-- multiple inheritance inside the theorem: a diamond `K0; K1(K0); K2(K0); K3(K1, K2)` with `m0` overridden in
+    K1 and K2 (compatible signatures); a `K2`-typed parameter holding a `K3` dispatches to `K1.m0` (MRO 3,1,2,0) -/
+def progDiamond : Prog :=
+  let m (k : Int) : FuncDef := { params := [[.int]], locals := [], ret := [.int], body := .ret (.add (.var 1) (.intLit k)) }
+  let cls (b : List Nat) (mro : List Nat) (ms : List (Nat × FuncDef)) : ClassDef :=
+    { bases := b, mro := mro, attrs := [], init := { params := [], assigns := [] }, methods := ms }
+  { classes := [cls [] [0] [(0, m 0)], cls [0] [1, 0] [(0, m 10)], cls [0] [2, 0] [(0, m 20)], cls [1, 2] [3, 1, 2, 0] []],
+    funcs := [{ params := [[.cls 2]], locals := [], ret := [.int],
+                body := .seq (.expr (.probe 1 (.var 0))) (.ret (.callM (.var 0) 0 [.intLit 1])) }] }
+
+example : WF progDiamond ∧ tc progDiamond = .ok [(1, [.cls 2])] := by decide
+example : (evalCall 20 progDiamond (progDiamond.funcs[0]!) [.ref 0] { heap := [{ cls := 3, fields := [] }], log := [] }).1
+    = .ok (.int 11) := by decide
 
 end Lang
